@@ -74,7 +74,7 @@ struct WorldQ : World {
   bool had_crash = false, had_lossy_crash = false, had_proc_crash = false;
   bool io_faults_in_daemon = false;
   int outstanding_count[2] = {0, 0};
-  std::set<int> delnum_used[2];
+  std::set<int> delnum_used[2]; std::string cmdbuf[2];
   int eff_conc[2] = {0, 0};
   // bounce injection tracking (qmail-send's injectbounce is synchronous)
   uint64_t bounce_open_n = 0; int bounce_child_pid = 0; int bounce_child_status = -1; bool bounce_child_seen = false;
@@ -105,7 +105,7 @@ struct WorldQ : World {
   void after_crash();
   GMsg *new_auto_msg(uint64_t n, int pid);
   void check_publication(GMsg *m, const Event &e);
-  int expected_exit(const std::string &env_raw) const;
+  int expected_exit(const std::string &env_raw, size_t *consumed = nullptr) const;
   void op_boot(); void op_inject(const Json &op); void op_settle(int64_t max_s);
   bool queue_empty();
   int spawner_stub(int chan);
